@@ -137,7 +137,7 @@ class ThermalSpectralElement(BaseUnitlessSpectrum):
             raise exceptions.SynphotError(
                 'Missing {0} keyword.'.format(temperature_key))
 
-        beam_fill_factor = tab_hdr.get('BEAMFILL', 1)
+        beam_fill_factor = tab_hdr.get(beamfill_key, 1)
 
         if 'flux_col' not in kwargs:
             kwargs['flux_col'] = 'EMISSIVITY'
